@@ -410,6 +410,19 @@ class CallsMixin(ExecBase):
         is_pure = name in pure or short in pure or short.split(".")[-1] in pure
         is_nothrow = is_pure or name in nothrow or short in nothrow or short.split(".")[-1] in nothrow
         self.opaque_callees.add(name)
+        sa = self.opts.get("site_asserts", {})
+        sa = sa.get(name) or sa.get(short) or sa.get(short.split(".")[-1])
+        if sa is not None and self.depth == 0:
+            from .contracts import Clause
+            cl = Clause("site_" + short.replace(".", "_"), sa, "ensures")
+            bound = dict(st.vars)
+            for i_, a_ in enumerate(args):
+                bound[f"arg{i_}"] = a_[1] if isinstance(a_, tuple) else a_
+            goal = self.eval_clause(cl, bound, st, self.entry_pre, {})
+            k_ = sum(1 for o in self.obligations if f"::site:{short}" in o.id)
+            g_ = self.guard_cond()
+            self.obligations.append(Obligation(f"{getattr(self, 'fn_site', self.fn_qual)}::site:{short}#{k_}", "assert",
+                                               list(st.pc) + ([g_] if g_ is not None else []), goal, {"line": getattr(node, "lineno", 0), "clause": cl.name}))
         avals = []
         for a in args:
             if isinstance(a, tuple):
@@ -1350,6 +1363,9 @@ class CallsMixin(ExecBase):
                 return VBool(True)
             if c.kind == "obj" and self.class_of(c) is not None and not c.lazy:
                 return VBool(self.find_method(self.class_of(c), nm) is not None)
+        if isinstance(n, Val) and n.tag == "s" and z3.is_string_value(z3.simplify(n.e)):
+            # deterministic: an uninterpreted predicate of the object, per attribute name
+            return VBool(z3.Function("hasattr." + z3.simplify(n.e).as_string(), Any, BoolS)(self.as_val(x, st, node).any()))
         return VBool(fresh("hasattr", BoolS))
 
     def b_getattr(self, args, kwargs, st, node):
